@@ -557,6 +557,9 @@ pub enum Defect {
     LenDelta(i32),
     /// drop this many bytes from the end
     CutTail(u16),
+    /// drop this many bytes from the end and set the declared length to what is left
+    /// (a body that is consistent with the header but not tiled by padded attributes)
+    CutTailFixLen(u16),
     /// append bytes after the message
     ExtraTail(Hex),
     /// xor into byte 0 (top bits) or the cookie bytes 4..8
@@ -627,6 +630,11 @@ impl WireSpec {
                 let keep = buf.len().saturating_sub(*n as usize);
                 buf.truncate(keep);
             }
+            Defect::CutTailFixLen(n) => {
+                let keep = buf.len().saturating_sub(*n as usize).max(20);
+                buf.truncate(keep);
+                refstun::set_len(&mut buf);
+            }
             Defect::ExtraTail(h) => buf.extend_from_slice(&h.0),
             Defect::HeaderXor { offset, mask } => {
                 let o = if *offset == 0 { 0 } else { 4 + (*offset as usize - 1) % 4 };
@@ -687,6 +695,7 @@ pub fn defect_strategy() -> BoxedStrategy<Defect> {
         3 => prop_oneof![Just(-4i32), Just(4), Just(-8), Just(8), -64i32..=64, Just(-20), Just(1), Just(-1), Just(2), Just(3)]
             .prop_map(Defect::LenDelta),
         3 => prop_oneof![1u16..=12, 1u16..=200].prop_map(Defect::CutTail),
+        3 => prop_oneof![1u16..=3, 1u16..=12, 1u16..=60].prop_map(Defect::CutTailFixLen),
         3 => bytes_len(prop_oneof![1usize..=12, 1usize..=64]).prop_map(|v| Defect::ExtraTail(Hex(v))),
         2 => (0u8..5, prop_oneof![Just(0x80u8), Just(0x40u8), Just(0xC0u8), 1u8..=255])
             .prop_map(|(offset, mask)| Defect::HeaderXor { offset, mask }),
